@@ -34,7 +34,9 @@ NUMERIC = ["equal_to", "not_equal_to", "less_than", "greater_than", "less_than_o
            "equal_to_approx", "truthy", "falsy", "null"]
 DTYPE_FNS = ["equal_to", "not_equal_to", "in_", "not_in"]
 TYPE_NAMES = ["int", "float", "str", "list", "dict", "bool", "path"]
-PATHLIKE_LITERALS = [{" path": ["A"]}, {"path ": ["A"]}, {"Path .length": ["A"]}, {"path. length": ["A"]}, {"\tpath": 1}, {"path\n": ["A"]},
+PATHLIKE_LITERALS = [{"path.v2": 1}, {"path.map-keys": [{"a": 1}]}, {"path.l\u00e4ngd": None}, {"path. length": True}, {"path.1": 3}, {"PATH.Len2": [1]},
+                     {"path.first.length.x": 2.5}, {"path.Length ": [{"k": 1}]}, {"PATH": ["A"]}, {"pAtH.LENGTH": ["A"]}, {"Path.First.Map_Keys": ["A"]},
+                     {" path": ["A"]}, {"path ": ["A"]}, {"Path .length": ["A"]}, {"path. length": ["A"]}, {"\tpath": 1}, {"path\n": ["A"]},
                      {"path": ["A"]}, {"path": 3}, {"path.length": ["a"]}, {"Path": ["A"]}, {"PATH.first": [1]},
                      {"path": ["a"], "b": 2}, {"path.x.y.z": 1}, {"a": {"path": ["q"]}}, {"pathway": 1}, {"path.": []}, {"paths": [1]}, {"pathname": "x"},
                      {"path_to": ["a"]}, {"k": [{"path": 1}]}, [[{"path": 1}]], {"k": {"j": {"path": ["a"]}}}, [{"k": [{"Path.length": 2}]}]]
@@ -200,6 +202,21 @@ def strata(tier):
                    "path": PC.mkpath([{"p": "mol"}]), "arg_kind": "pathlike-literal"}
         yield {"term": PC.L("value", "in_", [lit, 7]), "cont": [lit, 7, 3], "doc": {"x": lit}, "path": PC.mkpath([{"p": "mol"}]),
                "arg_kind": "pathlike-literal"}
+    # long chains: the serialised form nests one level per operand and must be rebuilt whatever its depth
+    for n in (34, 35, 70, 130):
+        for op in ("and", "or", "xor"):
+            for right in (False, True):
+                leaves_ = [PC.L("value", "not_equal_to", i) if i % 3 else PC.L("value", "greater_than", i - 50) for i in range(n)]
+                tm = leaves_[0]
+                for x in leaves_[1:]:
+                    tm = {"c": op, "a": x, "b": tm} if right else {"c": op, "a": tm, "b": x}
+                yield {"term": tm, "cont": list(range(-5, 12)) + ["a", None], "doc": {"x": 3, "y": [1, 60]}, "path": PC.mkpath([{"p": "mol"}]), "arg_kind": "long-chain"}
+    # floats that need all 17 significant digits, as arguments and inside list / mapping arguments
+    for f in (0.1 + 0.2, 1.0000000000000002, 1 / 3, 123456789.12345678, 5e-324, 1.7976931348623157e308, -1e-320, 0.30000000000000004, 9007199254740993.0):
+        nb = [f, 0.3, 1.0, 1 / 3 + 1e-16, 123456789.12345679, 0.0, 1.7976931348623155e308]
+        for tm in (PC.L("value", "equal_to", f), PC.L("value", "in_", [f, 2]), PC.L("value", "less_than", f), PC.L("value", "equal_to", {"k": f}),
+                   PC.L("value", "equal_to_approx", f, 1e-20), PC.L("value", "in_range", 0, 3, pre="length")):
+            yield {"term": tm, "cont": nb + [{"k": f}], "doc": {"x": f, "y": nb}, "path": PC.mkpath([{"p": "mol"}]), "arg_kind": "float-17-digits"}
     # the same (equal) literal at two depths of one argument / in two arguments / in two leaves
     for d in ({"path": [1]}, {"Path.length": [2]}, {"a": 1}, [1, "x"], {"path": {"path": 1}}):
         for args in ([[d, [d]]], [[[d], d]], [{"k": d, "j": [[d]]}], [[d, d, [[d]]]], [d], [[d, {"q": [d]}]]):
